@@ -594,9 +594,8 @@ impl<'a, 'b> Builder<'a, 'b> {
             }
         }
         let dotted = *tail != MV::Null;
-        // brackets as list delimiters (a dotted tail must be closed by `)`, so
-        // bracket lists are only used for proper lists)
-        let brackets = !self.q.brackets_vector && !dotted && self.alt(4) == 1;
+        // brackets as list delimiters, for proper and for dotted lists
+        let brackets = !self.q.brackets_vector && self.alt(4) == 1;
         let (open, close) = if brackets { ('[', ']') } else { ('(', ')') };
         self.out.push(open);
         self.trivia(false);
